@@ -183,36 +183,35 @@ def wSparseI (o : Opts) : List (Nat × Int) → List Tok
   | (i, v) :: l => [.int i, wIntTok o v, .eol] ++ wSparseI o l
 
 /-! ## header: `WriteNLHeader` (always text, through `File::Printf`; the comments are always there) -/
-def wHeader (h : Hdr) (o : Opts) : List Tok :=
-  -- line 1
-  [.ch (if o.binary then .fmtB else .fmtG), .int h.nopts] ++ (h.opts.take h.nopts).map (fun v => Tok.int v) ++
-    (if h.opts[1]? = some (3 : Int) then [.vbt h.vbtol] else []) ++ [.cmt ("problem " ++ h.probName), .eol] ++
-  -- line 2
+def wH1 (h : Hdr) (o : Opts) : List Tok :=
+  [.ch (if o.binary then .fmtB else .fmtG), .int h.nopts] ++ ((h.opts.take h.nopts).map (fun v => Tok.int v) ++
+    ((if h.opts[1]? = some (3 : Int) then [.vbt h.vbtol] else []) ++ [.cmt ("problem " ++ h.probName), .eol]))
+def wH2 (h : Hdr) : List Tok :=
   [.int h.nv, .int h.nac, .int h.no, .int h.nr, .int h.ne] ++
-    (if h.nrandv ≠ 0 then [.int h.nlc, .int h.nrandv] else if h.nlc ≠ 0 then [.int h.nlc] else []) ++ [.cmt "vars", .eol] ++
-  -- line 3
+    ((if h.nrandv ≠ 0 then [.int h.nlc, .int h.nrandv] else if h.nlc ≠ 0 then [.int h.nlc] else []) ++ [.cmt "vars", .eol])
+def wH3 (h : Hdr) : List Tok :=
   (if h.ncc ≠ 0 ∨ h.nrandc ≠ 0 ∨ h.nrando ≠ 0 then
       [.int h.nnlc, .int h.nnlo, .int ((h.ncc : Int) - h.nnlcc), .int h.nnlcc, .int h.ncdi, .int h.ncnz] ++
         (if h.nrandc ≠ 0 ∨ h.nrando ≠ 0 then [.int h.nrandc, .int h.nrando] else [])
-    else [.int h.nnlc, .int h.nnlo]) ++ [.cmt "nonlinear", .eol] ++
-  -- line 4
-  [.int h.nnnc, .int h.nlnc] ++ (if h.nstages > 1 then [.int h.nstages] else []) ++ [.cmt "network", .eol] ++
-  -- line 5
-  [.int h.nlvc, .int h.nlvo, .int h.nlvb, .cmt "nonlinear vars", .eol] ++
-  -- line 6
+    else [.int h.nnlc, .int h.nnlo]) ++ [.cmt "nonlinear", .eol]
+def wH4 (h : Hdr) : List Tok :=
+  [.int h.nnnc, .int h.nlnc] ++ ((if h.nstages > 1 then [.int h.nstages] else []) ++ [.cmt "network", .eol])
+def wH5 (h : Hdr) : List Tok :=
+  [.int h.nlvc, .int h.nlvo, .int h.nlvb, .cmt "nonlinear vars", .eol]
+def wH6 (h : Hdr) (o : Opts) : List Tok :=
   [.int h.nlnv, .int h.nf] ++
-    (if h.nrandv ≠ 0 then [.int (if o.binary then h.arith else 0), .int h.flags, .int h.nrandcalls]
+    ((if h.nrandv ≠ 0 then [.int (if o.binary then h.arith else 0), .int h.flags, .int h.nrandcalls]
      else if h.flags ≠ 0 ∨ h.arith ≠ 0 then [.int (if o.binary then h.arith else 0), .int h.flags] else []) ++
-    [.cmt "linear network", .eol] ++
-  -- line 7
-  [.int h.nlbv, .int h.nliv, .int h.nnlib, .int h.nnlic, .int h.nnlio, .cmt "discrete", .eol] ++
-  -- line 8
-  [.int h.nzc, .int h.nzo, .cmt "nonzeros", .eol] ++
-  -- line 9
-  [.int h.mcl, .int h.mvl, .cmt "max name lengths", .eol] ++
-  -- line 10
+    [.cmt "linear network", .eol])
+def wH7 (h : Hdr) : List Tok :=
+  [.int h.nlbv, .int h.nliv, .int h.nnlib, .int h.nnlic, .int h.nnlio, .cmt "discrete", .eol]
+def wH8 (h : Hdr) : List Tok := [.int h.nzc, .int h.nzo, .cmt "nonzeros", .eol]
+def wH9 (h : Hdr) : List Tok := [.int h.mcl, .int h.mvl, .cmt "max name lengths", .eol]
+def wH10 (h : Hdr) : List Tok :=
   [.int h.ceb, .int h.cec, .int h.ceo, .int h.cesc, .int h.ceso] ++
-    (if h.nrandce ≠ 0 then [.int h.nrandce] else []) ++ [.cmt "common exprs", .eol]
+    ((if h.nrandce ≠ 0 then [.int h.nrandce] else []) ++ [.cmt "common exprs", .eol])
+def wHeader (h : Hdr) (o : Opts) : List Tok :=
+  wH1 h o ++ (wH2 h ++ (wH3 h ++ (wH4 h ++ (wH5 h ++ (wH6 h o ++ (wH7 h ++ (wH8 h ++ (wH9 h ++ wH10 h))))))))
 
 /-! ## sections -/
 
